@@ -27,7 +27,8 @@ EXPLANATION = (
     'found in a generated move list (selectHashMove true, or the membership idiom with a per-candidate flag); (5) TBProbe::extendPV '
     'truncates the PV at exactly the number of moves it replayed before it appends tablebase moves generated from that position.'
     ' (6) the MultiPV count that indexes / offsets the root list or is handed on with it is min(.., rootMoves.size()) at every use and the list is not resized after the clamp.'
-    ' Added later; (7) the text printed for a move (bestmove, ponder, pv, currmove) is its UCI form: the suffix SearchListener::moveToString writes for each promotion piece, obtained by interpreting the printer for every promotion code, is the letter uciStringToMove reads back as that piece, and the listener formats moves only through the checked printers.')
+    ' Added later; (7) the text printed for a move (bestmove, ponder, pv, currmove) is its UCI form: the suffix SearchListener::moveToString writes for each promotion piece, obtained by interpreting the printer for every promotion code, is the letter uciStringToMove reads back as that piece, and the listener formats moves only through the checked printers.'
+    ' Added later; (8) MoveList::filter decides membership in the searchmoves list by move equality or by every field Move::operator== compares.')
 UNDECIDED = ('that the chosen move is good; playability of PVs beyond the validated-prefix rule; MultiPV distinctness by value; score '
              'ranges (see C04 for the mate-distance encoding).')
 ASSUMPTIONS = ['MoveGen::pseudoLegalMoves + removeIllegal produce exactly the legal moves (property C01)',
@@ -54,6 +55,7 @@ def run(fb, rep, tier):
     from . import C17
     C17.uci_promotion_letters(fb, rep, 'C03.7', ('SearchListener::moveToString',))
     c7_printer_single(fb, rep)
+    c8_filter_identity(fb, rep)
 
 
 # ----------------------------------------------------------------------------- .1
@@ -573,3 +575,36 @@ def c7_printer_single(fb, rep):
                             if cname(x) not in ('SearchListener::moveToString', 'TextIO::moveToUCIString'):
                                 bad.append((f.sname, cname(x)))
     rep.ob(clause, 'K5 who-may-print', 'the search listener formats moves only with the checked UCI printers', not bad, '', 'formatter calls in output statements: %d; others: %s' % (n, bad), 'SearchListener')
+
+
+def c8_filter_identity(fb, rep):
+    """K10: `go searchmoves` restricts the root list in MoveList::filter.  A root move is kept iff it *is* one of the
+    requested moves, and two moves are the same move exactly when Move::operator== says so (origin, target and promotion
+    piece).  The membership test must therefore be that equality (std::find / operator== on Move objects), or read - through
+    the accessors - every field operator== compares; a key made of origin and target alone lets all four promotions of a
+    pawn step through when one of them was requested."""
+    clause = 'C03.8'
+    eq = fb.find1('Move::operator==') or fb.find1('Move::equals')
+    flt = fb.find1('MoveList::filter')
+    if rep.need(clause, eq, 'Move::operator==') is None or rep.need(clause, flt, 'MoveList::filter') is None:
+        return
+    identity = {q.split('.', 1)[1] for q in R.this_fields_read(eq)}
+    rep.floor(clause, 'fields compared by Move::operator==', len(identity), 3)
+    uses_eq = False
+    read = set()
+    for b, i, e in flt.events():
+        for n in walk(e):
+            if n.get('k') != 'call':
+                continue
+            nm = cname(n)
+            if nm in ('Move::operator==', 'Move::equals', 'Move::operator!='):
+                uses_eq = True
+            if nm in ('std::find', 'std::count', 'std::any_of') and any('Move' in str(a.get('t', '')) + str(a.get('rc', '')) for a in n.get('args', []) if isinstance(a, dict)):
+                uses_eq = True
+            if nm.startswith('Move::') and n.get('repo') and n.get('cmeth'):
+                g = fb.find1(nm)
+                if g is not None and g.has_cfg:
+                    read |= {q.split('.', 1)[1] for q in R.this_fields_read(g)}
+    ok = uses_eq or identity <= read
+    rep.ob(clause, 'K10 identity agreement', 'MoveList::filter decides membership in the searchmoves list by the full move identity', ok, flt.where,
+           'Move::operator== compares %s; filter uses move equality: %s; fields read through accessors: %s' % (sorted(identity), uses_eq, sorted(read)), flt.sname)
